@@ -42,21 +42,29 @@ def _validator():
     return _VALIDATOR
 
 
+MISMATCH: list = []   # documents on which rbacx.dsl.validate.validate_policy and the bundled schema file disagree (C17's business)
+
+
+def validator_ok(doc) -> bool:
+    """verdict of the library's own `validate_policy`"""
+    try:
+        validate_policy(doc)
+        return True
+    except RuntimeError:
+        raise lib.CheckError("jsonschema is not importable (run ./setup.sh)")
+    except Exception:  # noqa: BLE001
+        return False
+
+
 def schema_ok(doc) -> bool:
-    """verdict of the bundled schema (cached validator over the same file; every 25th document is also put
-    through the real `validate_policy` and the two verdicts must agree)"""
+    """verdict of the bundled schema FILE (a validator built by the harness from policy.schema.json); every 25th document is also put
+    through the library's `validate_policy` — a difference is recorded in MISMATCH (the schema file's verdict is what is returned)"""
     ok = _validator().is_valid(doc)
     _N[0] += 1
     if _N[0] % 25 == 0:
-        try:
-            validate_policy(doc)
-            real_ok = True
-        except RuntimeError:
-            raise lib.CheckError("jsonschema is not importable (run ./setup.sh)")
-        except Exception:  # noqa: BLE001
-            real_ok = False
+        real_ok = validator_ok(doc)
         if real_ok != ok:
-            raise lib.CheckError("cached schema validator disagrees with rbacx.dsl.validate.validate_policy")
+            MISMATCH.append({"document": doc, "bundled_schema_accepts": ok, "validate_policy_accepts": real_ok})
     return ok
 
 
